@@ -378,6 +378,67 @@ def core_state(src):
         "note": "mutable class/module-level state outside the registries: %s" % ", ".join(extra) if extra else ""}}
 
 
+def intern_key_order(src):
+    """C02 canonicity rests on the intern key being a FUNCTION of the factor map: Unit._build_key lists the items in an order
+    given by an injective key (the identity of the interned base unit, assumption A6).  A sort key that can tie - a symbol, a name,
+    a dimension - makes the key depend on insertion order, and a*b and b*a two objects."""
+    prog = Program(src)
+    fi = prog.func("measured.Unit._build_key")
+    oid = "C02/static:intern-key-lists-factors-by-an-injective-key"
+    if fi is None:
+        return {oid: {"status": "undecided", "note": "Unit._build_key not found", "ms": 0, "backend": "static-scan"}}
+    ok = False
+    for n in ast.walk(fi.node):
+        if isinstance(n, ast.Call) and isinstance(n.func, ast.Name) and n.func.id == "sorted":
+            key = [k.value for k in n.keywords if k.arg == "key"]
+            if key and isinstance(key[0], ast.Lambda) and ast.unparse(key[0].body).replace(" ", "") in ("id(pair[0])", "id(%s[0])" % key[0].args.args[0].arg):
+                ok = True
+    res = {oid: {"status": "discharged" if ok else "undecided", "ms": 0, "backend": "static-scan", "function": fi.qual, "deps": {fi.qual: fi.sha},
+                 "note": "" if ok else "the factor items are not sorted by id(<unit>): the order (and so the intern key) may depend on insertion order"}}
+    return res
+
+
+def c20_publication(src):
+    """C20: an interned object is visible to other threads from the moment __new__ registers it, and a second thread that obtains it
+    runs __init__ again (harmlessly, as long as every field is set by ONE assignment of a complete value).  The view fields of
+    Dimension / Prefix / Unit are therefore assigned exactly once each in __init__, by a plain `self.<field> = <expr>` statement outside
+    any loop, and never filled in step by step (item assignment, augmented assignment, mutating method call on self.<field>)."""
+    prog = Program(src)
+    VIEW = {"Unit": ("prefix", "factors", "dimension"), "Prefix": ("base", "exponent"), "Dimension": ("exponents",)}
+    MUT = {"append", "extend", "insert", "pop", "remove", "clear", "update", "setdefault", "add", "discard", "popitem", "sort"}
+    res = {}
+    for cname, fields in VIEW.items():
+        fi = prog.method("measured", cname, "__init__")
+        oid = "C20/static:%s.__init__-publishes-each-view-field-by-one-assignment" % cname
+        if fi is None:
+            res[oid] = {"status": "undecided", "note": "__init__ not found", "ms": 0, "backend": "static-scan"}
+            continue
+        bad = []
+        loops = [n for n in ast.walk(fi.node) if isinstance(n, (ast.For, ast.While, ast.ListComp, ast.DictComp))]
+        in_loop = {id(x) for l in loops if isinstance(l, (ast.For, ast.While)) for x in ast.walk(l)}
+        counts = {f: 0 for f in fields}
+        for n in ast.walk(fi.node):
+            def is_self_field(t):
+                return isinstance(t, ast.Attribute) and isinstance(t.value, ast.Name) and t.value.id == "self" and t.attr in fields
+            if isinstance(n, ast.Assign):
+                for t in n.targets:
+                    if is_self_field(t):
+                        counts[t.attr] += 1
+                        if id(n) in in_loop:
+                            bad.append("self.%s assigned inside a loop (line %d)" % (t.attr, n.lineno))
+                    if isinstance(t, ast.Subscript) and is_self_field(t.value):
+                        bad.append("self.%s filled in item by item (line %d)" % (t.value.attr, n.lineno))
+            elif isinstance(n, ast.AugAssign) and (is_self_field(n.target) or (isinstance(n.target, ast.Subscript) and is_self_field(n.target.value))):
+                bad.append("augmented assignment on self.%s (line %d)" % ((n.target.attr if isinstance(n.target, ast.Attribute) else n.target.value.attr), n.lineno))
+            elif isinstance(n, ast.Call) and isinstance(n.func, ast.Attribute) and n.func.attr in MUT and is_self_field(n.func.value):
+                bad.append("self.%s.%s(...) (line %d)" % (n.func.value.attr, n.func.attr, n.lineno))
+        for f, c in counts.items():
+            if c != 1:
+                bad.append("self.%s assigned %d times" % (f, c))
+        res[oid] = {"status": "discharged" if not bad else "refuted", "note": "; ".join(bad), "ms": 0, "backend": "static-scan", "complete": True}
+    return res
+
+
 def process_state(src):
     """no function of the library proper rebinds a module-level name (`global` / `nonlocal` caches) or changes
     process-wide interpreter state (the decimal context, recursion limit, locale, random seed, environment,
